@@ -11,7 +11,7 @@ ID = "C08"
 LEVEL = "exploration"
 RULE = (
     "case = history of up to 30 (50 in thorough) steps on one connection in virtual time: client calls send / send_binary / "
-    "ping / recv / recv_data_frame / close(status, reason, timeout) / send_close / shutdown (statuses incl. 0, 65535 and "
+    "ping / recv / recv_data_frame / recv_frame / close(status, reason, timeout) / send_close / shutdown (statuses incl. 0, 65535 and "
     "out-of-range -1, 65536, 70000) interleaved with server events (data frame, ping, close frame at most once, EOF, "
     "waiting) under a server policy for our close (reply at once / after d / never / chatty: keeps sending frames, then "
     "replies late or never or falls silent). Non-trivial: a history in which close() / a close frame / EOF / shutdown is "
@@ -64,9 +64,13 @@ def run_case(case):
         hs_len[0] = len(sock.sent)
         for i, stp in enumerate(case["steps"]):
             op = stp[0]
-            if op.startswith("srv") or op == "wait":
+            if op.startswith("srv") or op in ("wait", "fault_write"):
                 if op == "wait":
                     sched.block(None, stp[1], "wait")
+                elif op == "fault_write":
+                    if not sock.closed:
+                        sock.write_fault = stp[1]  # the next write accepts stp[1] bytes, then times out
+                        st_["faults"] = st_.get("faults", 0) + 1
                 elif not st_["srv_done"] and not sock.closed:
                     if op == "srv_data":
                         peer.deliver(rm.encode_frame(1, rm.TEXT if stp[1] else rm.BINARY, b"s%d" % i))
@@ -85,6 +89,7 @@ def run_case(case):
             if st_["end_seen"]:
                 st_["calls_after_end"] += 1
             log_before = len(sock.log)
+            faulted = sock.write_fault is not None  # this call's write will be torn: its encoding is not judged
             sent_before = len(sock.sent)
             connected_before = ws.connected
             t0 = sched.now
@@ -100,6 +105,8 @@ def run_case(case):
                     ws.recv()
                 elif op == "recv_data_frame":
                     ws.recv_data_frame(True)
+                elif op == "recv_frame":
+                    ws.recv_frame()
                 elif op == "close":
                     ws.close(stp[1], stp[2], timeout=stp[3])
                 elif op == "send_close":
@@ -111,10 +118,12 @@ def run_case(case):
             except Exception as e:  # noqa: BLE001
                 exc = e
             wrote = bytes(sock.sent[sent_before:])
+            if op != "send_close" or stp[1] in BAD_STATUS:
+                st_["own_close_starts"] = st_.get("own_close_starts", 0) + _close_starts(wrote)
             tag = f"step{'-after-release' if st_['released'] else ''}|{op}"
             # (4) released: everything must raise connection-closed and leave the transport alone
             if st_["released"]:
-                if op in ("send", "send_binary", "ping", "recv", "recv_data_frame", "send_close") and not (op == "send_close" and stp[1] in BAD_STATUS):
+                if op in ("send", "send_binary", "ping", "recv", "recv_data_frame", "recv_frame", "send_close") and not (op == "send_close" and stp[1] in BAD_STATUS):
                     if not isinstance(exc, websocket.WebSocketConnectionClosedException):
                         got = "returned" if exc is None else type(exc).__name__
                         obs.fail(f"released|{op}-does-not-raise-connection-closed|{got}", f"step {i} {stp}: {got} ({exc}) after release by {st_['released_by']}")
@@ -131,7 +140,7 @@ def run_case(case):
                     obs.fail(f"status|out-of-range-changed-state|{op}", f"step {i} {stp}: connected {connected_before} -> {ws.connected}")
                 continue
             # (2) explicit close frames carry status and reason
-            if op in ("close", "send_close") and wrote:
+            if op in ("close", "send_close") and wrote and not faulted:
                 fr, left = rm.decode_frames(wrote)
                 want = struct.pack(">H", stp[1]) + stp[2]
                 if len(fr) != 1 or left or fr[0].opcode != rm.CLOSE or fr[0].payload != want or not fr[0].masked or not fr[0].fin:
@@ -153,7 +162,7 @@ def run_case(case):
                 if connected_before:
                     if exc is not None:
                         obs.fail(exc_bucket("close|raised", exc), f"step {i} {stp}: {type(exc).__name__}: {exc}")
-                    if not wrote:
+                    if not wrote and not faulted:
                         obs.fail("close|no-close-frame-written", f"step {i} {stp}: connection was open, nothing written")
                     if stp[3] is not None and sched.now - t0 > stp[3] + EPS:
                         obs.fail("close|overran-timeout", f"step {i} {stp}: close() took {sched.now - t0:.3f}s of virtual time, timeout {stp[3]}; server={srv}")
@@ -162,7 +171,7 @@ def run_case(case):
             elif op == "shutdown":
                 st_["end_seen"] = True
                 st_["released"], st_["released_by"] = True, f"shutdown()@step{i}"
-            elif op in ("recv", "recv_data_frame") and isinstance(exc, websocket.WebSocketConnectionClosedException):
+            elif op in ("recv", "recv_data_frame", "recv_frame") and isinstance(exc, websocket.WebSocketConnectionClosedException):
                 st_["released"], st_["released_by"] = True, f"{op} reported end of stream @step{i}"
             elif exc is not None and not isinstance(exc, (websocket.WebSocketException, OSError)):
                 obs.fail(exc_bucket(f"step|{op}-internal-error", exc), f"step {i} {stp}: {type(exc).__name__}: {exc}")
@@ -189,10 +198,11 @@ def run_case(case):
         sock = net.sockets[0]
         fr, left = rm.decode_frames(bytes(sock.sent[hs_len[0]:]))
         closes = [f for f in fr if f.opcode == rm.CLOSE]
-        auto = len(closes) - st_["explicit_close_writes"]
+        auto = st_.get("own_close_starts", 0)
         if auto > 1:
-            obs.fail("close-frame|more-than-one-on-own-initiative", f"{len(closes)} close frames on the wire, {st_['explicit_close_writes']} from explicit send_close calls")
-        if left:
+            obs.fail("close-frame|more-than-one-on-own-initiative", f"{auto} close frames started by close() / automatic replies ({len(closes)} complete close frames on the wire, "
+                     f"{st_['explicit_close_writes']} from explicit send_close calls)")
+        if left and not st_.get("faults"):
             obs.fail("wire|trailing-garbage", f"{len(left)} bytes after the last complete client frame")
     nt = st_["calls_after_end"] >= 1
     ops = [s[0] for s in case["steps"]]
@@ -200,6 +210,21 @@ def run_case(case):
                f"calls_after_end:{min(st_['calls_after_end'], 5)}", f"released:{int(st_['released'])}") + tuple(sorted({f"op:{o}" for o in ops}))
     obs.nt = repr((case["steps"], srv)) if nt else None
     return obs
+
+
+def _close_starts(wrote):
+    """Number of close frames whose first byte was written (complete or torn by a write fault)."""
+    n, pos = 0, 0
+    while pos < len(wrote):
+        f = rm.decode_one(wrote, pos)
+        if f is None:
+            if wrote[pos] & 0x0F == rm.CLOSE:
+                n += 1
+            break
+        if f.opcode == rm.CLOSE:
+            n += 1
+        pos += f.total
+    return n
 
 
 status = st.one_of(st.sampled_from([1000, 1001, 1002, 1011, 3000, 4999, 0, 65535]), st.sampled_from(BAD_STATUS), st.integers(0, 65535))
@@ -210,6 +235,8 @@ step = st.one_of(
     st.tuples(st.just("ping"), st.sampled_from([b"", b"p"])),
     st.tuples(st.just("recv")),
     st.tuples(st.just("recv_data_frame")),
+    st.tuples(st.just("recv_frame")),
+    st.tuples(st.just("fault_write"), st.sampled_from([0, 1, 3, 6])),
     st.tuples(st.just("close"), status, reason, st.sampled_from([0.5, 1, 3])),
     st.tuples(st.just("close"), status, reason, st.sampled_from([0.5, 1, 3])),
     st.tuples(st.just("send_close"), status, reason),
@@ -233,6 +260,7 @@ def cases(max_steps):
 ALPHABET = [
     ["send", "hi"], ["recv"], ["recv_data_frame"], ["close", 1000, b"", 1], ["close", 3000, b"bye", 0.5], ["send_close", 1001, b"going"],
     ["shutdown"], ["srv_close", 1000, b""], ["srv_eof"], ["srv_data", True], ["ping", b"p"], ["close", 65536, b"", 1],
+    ["recv_frame"], ["fault_write", 3],
 ]
 POLICIES = [{"close": ["reply", 0.0]}, {"close": ["never"]}, {"close": ["reply", 0.4], "chatty": [0.2, 6]}]
 
@@ -261,6 +289,6 @@ def run_job(job, coll):
     if job["kind"] == "enum":
         for c in enum_histories(job["len"], job["shard"], job["of"]):
             coll.check(c, run_case)
-        coll.exhaustive[f"all histories of length <= {job['len']} over a 12-operation alphabet (server policy rotating)"] = True
+        coll.exhaustive[f"all histories of length <= {job['len']} over a 14-operation alphabet (server policy rotating)"] = True
     else:
         hyp_run(coll, cases(job["steps"]), run_case, job["seed"], job["n"])
